@@ -17,9 +17,18 @@ if "--replay" in args:
     gd = V
     cmd = ["python3-vt", "-c", "import sys; sys.path.insert(0,'.'); from pyvc.driver import main; main()"] + args
     sys.exit(subprocess.run(cmd, cwd=V).returncode)
+variants = g if isinstance(g, list) else [g]
+rcs = []
+evs = []
+for gv in variants:
+    gd = V if gv == "main" else os.path.join(V, "groups", gv)
+    p = subprocess.run(["python3-vt", "-c", "import sys; sys.path.insert(0,'.'); from pyvc.driver import main; main()"] + args, cwd=gd)
+    rcs.append(p.returncode)
+    evs.append((gv, os.path.join(gd, "evidence", "%s.json" % prop)))
+# 1 (violation) dominates, then 3 (engine failure), then 2 (undecided)
+rc = 1 if 1 in rcs else (3 if 3 in rcs else (2 if 2 in rcs else 0))
+g = variants[0]
 gd = V if g == "main" else os.path.join(V, "groups", g)
-p = subprocess.run(["python3-vt", "-c", "import sys; sys.path.insert(0,'.'); from pyvc.driver import main; main()"] + args, cwd=gd)
-rc = p.returncode
 # ---- bounded native post-checks (skipped for partial runs)
 bounded = []
 violations = []
@@ -48,14 +57,28 @@ for v in violations:
     print(v)
 if violations and rc in (0, 2):
     rc = 1
-# ---- evidence
-ev_src = os.path.join(gd, "evidence", "%s.json" % prop)
-if "--no-evidence" not in args and os.path.exists(ev_src):
-    e = json.load(open(ev_src))
+# ---- evidence (several variants: coverage merged, every variant named)
+if "--no-evidence" not in args and all(os.path.exists(f) for _, f in evs):
+    e = json.load(open(evs[0][1]))
     cov = e.setdefault("coverage", {})
-    if g != "main":
-        cov["checker_cmd"] = "cd /verif && ./check %s --tier %s   (engine variant /verif/groups/%s/pyvc)" % (prop, e.get("tier", tier), g)
-        cov.setdefault("trusted_base", []).append("engine variant: /verif/groups/%s/pyvc (fork of /verif/pyvc in which this group of contracts was developed; DESIGN 10.5, groups/%s/NOTES_%s.md)" % (g, g, g))
+    for gv, f in evs[1:]:
+        e2 = json.load(open(f))
+        c2 = e2.get("coverage", {})
+        for k in ("obligations", "discharged", "obligation_instances"):
+            if isinstance(c2.get(k), int):
+                cov[k] = int(cov.get(k, 0)) + c2[k]
+        for k in ("functions_under_contract", "samples", "trusted_base", "inlined", "contracts_used_at_call_sites", "out_of_reach", "undecided", "failed", "known_findings_confirmed"):
+            if isinstance(c2.get(k), list):
+                cov[k] = list(cov.get(k, [])) + [x for x in c2[k] if x not in cov.get(k, [])]
+        e["assumptions"] = list(e.get("assumptions", [])) + [x for x in e2.get("assumptions", []) if x not in e.get("assumptions", [])]
+        e["violations"] = int(e.get("violations", 0)) + int(e2.get("violations", 0))
+        if e2.get("level") != "proof":
+            e["level"] = e2.get("level", e["level"])
+    named = [gv for gv, _ in evs if gv != "main"]
+    if named:
+        cov["checker_cmd"] = "cd /verif && ./check %s --tier %s   (engine variant%s %s)" % (prop, e.get("tier", tier), "s" if len(named) > 1 else "", ", ".join("/verif/groups/%s/pyvc" % x for x in named))
+        for x in named:
+            cov.setdefault("trusted_base", []).append("engine variant: /verif/groups/%s/pyvc (fork of /verif/pyvc in which this group of contracts was developed; DESIGN 10.5, groups/%s/NOTES_%s.md)" % (x, x, x))
     if bounded:
         cov["bounded_native_post_checks"] = bounded
         e.setdefault("assumptions", []).append("BOUNDED (not proved): native scenario / unit stand-ins on the real code: " + "; ".join("%s: %s cases" % (b["script"], b["evaluations"]) for b in bounded))
